@@ -422,6 +422,23 @@ def generate(src, strip_comments, fn_body, header, repo):
     L.append("    applies the command line; `--password` / `--requirepass <value>` set the command-line password (last one wins) -/")
     L.append("def passwordSourcesUnderstood : Bool := %s" % ("true" if file_ok and order_ok and flags_ok and srv_ok else "false"))
 
+    # ---------------------------------------------------------------- (h) the line grammar of the configuration file
+    pbody = re.sub(r"\s+", " ", fn_body(prs, "parse_config_file") or "")
+    lm = re.search(r"for \(line_num, line_result\) in reader\.lines\(\)\.enumerate\(\) \{(.*)\} Ok\(config\)", pbody)
+    canonical_loop = (r" let line = line_result\?; let line = line\.trim\(\); if line\.is_empty\(\) \|\| line\.starts_with\('#'\) \{ continue; \} "
+                      r"let parts: Vec<&str> = line\.splitn\(2, ' '\)\.collect\(\); if parts\.len\(\) != 2 \{ return Err\([^;]*\); \} "
+                      r"let param = parts\[0\]\.trim\(\)\.to_lowercase\(\); let value = parts\[1\]\.trim\(\); "
+                      r"apply_config_param\(&mut config, &param, value, line_num \+ 1\)\?; ")
+    if lm and re.fullmatch(canonical_loop, lm.group(1)):
+        grammar = "rest-of-line-trimmed"
+    else:
+        grammar = "unknown"
+        L.append("/-- the line loop of parse_config_file as found (not the modelled shape) -/")
+        L.append("def configLineLoopFound : String := %s" % lean_str(lm.group(1).strip()[:400] if lm else "line loop of parse_config_file not found"))
+    L.append("/-- a line of the configuration file: \"rest-of-line-trimmed\" = trim; skip if empty or first character `#`; split at the FIRST")
+    L.append("    blank into directive (trimmed, lower-cased) and value (the whole rest, trimmed — nothing is cut, unquoted or unescaped) -/")
+    L.append("def configLineGrammar : String := %s" % lean_str(grammar))
+
     L.append("/-- what this extraction could not read in the current source (each entry: table, reason); the tables concerned hold")
     L.append("    inert defaults and the driver predicts nothing while this list is non-empty -/")
     L.append("def unreadable : List String := %s" % lean_list(failed))
